@@ -75,6 +75,8 @@ def random_spec(r: random.Random, idx: int) -> dict:
             "fn": r.choice(FNS), "maximize": r.random() < 0.4, "levels": levels,
             "hibernation": r.random() < 0.5,
             "idlecheck": all(float(lv.get("p_mutation", 1.0)) >= 1.0 for lv in levels)}
+    if r.random() < 0.15:
+        spec["retarget_problem"] = True
     if r.random() < 0.4:
         spec["reports"] = True
     if r.random() < 0.3:
